@@ -296,7 +296,7 @@ static int do_open(int dirfd, const char *path, int flags, mode_t mode, int is_a
         long idx;
         struct fault *f = next_fault(S_OPEN, cls, &idx);
         if (f && f->kind == K_ERRNO) {
-            trace("open %s idx=%ld path=%s flags=0x%x -> errno %ld", cls_name[cls], idx, path, flags, f->arg);
+            trace("open %s idx=%ld path=%s flags=0x%x -> errno %ld !inj", cls_name[cls], idx, path, flags, f->arg);
             errno = (int)f->arg;
             return -1;
         }
@@ -367,7 +367,7 @@ int close(int fd) {
         g_fdcls[fd] = C_NONE;
         long r = syscall(SYS_close, fd); /* the descriptor is released even when close reports an error */
         if (f && f->kind == K_ERRNO) {
-            trace("close %s idx=%ld -> errno %ld", cls_name[cls], idx, f->arg);
+            trace("close %s idx=%ld -> errno %ld !inj", cls_name[cls], idx, f->arg);
             errno = (int)f->arg;
             return -1;
         }
@@ -385,14 +385,14 @@ ssize_t read(int fd, void *buf, size_t count) {
         long idx;
         struct fault *f = next_fault(S_READ, cls, &idx);
         if (f && f->kind == K_ERRNO) {
-            trace("read %s idx=%ld count=%zu -> errno %ld", cls_name[cls], idx, count, f->arg);
+            trace("read %s idx=%ld count=%zu -> errno %ld !inj", cls_name[cls], idx, count, f->arg);
             errno = (int)f->arg;
             return -1;
         }
         size_t want = count;
         if (f && f->kind == K_SHORT && (size_t)f->arg < want) want = (size_t)f->arg;
         long r = syscall(SYS_read, fd, buf, want);
-        trace("read %s idx=%ld count=%zu%s -> %ld", cls_name[cls], idx, count, f ? " short" : "", r);
+        trace("read %s idx=%ld count=%zu%s -> %ld", cls_name[cls], idx, count, f ? " short !inj" : "", r);
         return r;
     }
     return syscall(SYS_read, fd, buf, count);
@@ -404,14 +404,14 @@ ssize_t write(int fd, const void *buf, size_t count) {
         long idx;
         struct fault *f = next_fault(S_WRITE, cls, &idx);
         if (f && f->kind == K_ERRNO) {
-            trace("write %s idx=%ld count=%zu -> errno %ld", cls_name[cls], idx, count, f->arg);
+            trace("write %s idx=%ld count=%zu -> errno %ld !inj", cls_name[cls], idx, count, f->arg);
             errno = (int)f->arg;
             return -1;
         }
         size_t want = count;
         if (f && f->kind == K_SHORT && (size_t)f->arg < want) want = (size_t)f->arg;
         long r = syscall(SYS_write, fd, buf, want);
-        trace("write %s idx=%ld count=%zu%s -> %ld", cls_name[cls], idx, count, f ? " short" : "", r);
+        trace("write %s idx=%ld count=%zu%s -> %ld", cls_name[cls], idx, count, f ? " short !inj" : "", r);
         return r;
     }
     return syscall(SYS_write, fd, buf, count);
@@ -423,7 +423,7 @@ ssize_t writev(int fd, const struct iovec *iov, int iovcnt) {
         long idx;
         struct fault *f = next_fault(S_WRITEV, cls, &idx);
         if (f && f->kind == K_ERRNO) {
-            trace("writev %s idx=%ld -> errno %ld", cls_name[cls], idx, f->arg);
+            trace("writev %s idx=%ld -> errno %ld !inj", cls_name[cls], idx, f->arg);
             errno = (int)f->arg;
             return -1;
         }
@@ -431,7 +431,7 @@ ssize_t writev(int fd, const struct iovec *iov, int iovcnt) {
             size_t want = iov[0].iov_len;
             if ((size_t)f->arg < want) want = (size_t)f->arg;
             long r = syscall(SYS_write, fd, iov[0].iov_base, want);
-            trace("writev %s idx=%ld short -> %ld", cls_name[cls], idx, r);
+            trace("writev %s idx=%ld short !inj -> %ld", cls_name[cls], idx, r);
             return r;
         }
         long r = syscall(SYS_writev, fd, iov, iovcnt);
@@ -443,7 +443,11 @@ ssize_t writev(int fd, const struct iovec *iov, int iovcnt) {
 
 /* ---------------------------------------------------------------- stat family */
 
-int statx(int dirfd, const char *path, int flags, unsigned int mask, struct statx *buf) {
+int statx(int dirfd, const char *path_nn, int flags, unsigned int mask, struct statx *buf) {
+    /* std probes statx availability with a NULL path (expects EFAULT); glibc declares the parameter nonnull, so
+       the compiler would drop a NULL test on it - launder the pointer through a volatile */
+    const char *volatile path_v = path_nn;
+    const char *path = path_v;
     load_plan();
     int cls, sym;
     if (path && path[0] == 0 && (flags & AT_EMPTY_PATH)) {
@@ -457,7 +461,7 @@ int statx(int dirfd, const char *path, int flags, unsigned int mask, struct stat
         long idx;
         struct fault *f = next_fault(sym, cls, &idx);
         if (f && f->kind == K_ERRNO) {
-            trace("%s %s idx=%ld path=%s -> errno %ld", sym_name[sym], cls_name[cls], idx, path ? path : "", f->arg);
+            trace("%s %s idx=%ld path=%s -> errno %ld !inj", sym_name[sym], cls_name[cls], idx, path ? path : "", f->arg);
             errno = (int)f->arg;
             return -1;
         }
@@ -477,7 +481,7 @@ static int path_stat_fault(int dirfd, const char *path) {
         long idx;
         struct fault *f = next_fault(S_STAT, cls, &idx);
         if (f && f->kind == K_ERRNO) {
-            trace("stat %s idx=%ld path=%s -> errno %ld", cls_name[cls], idx, path, f->arg);
+            trace("stat %s idx=%ld path=%s -> errno %ld !inj", cls_name[cls], idx, path, f->arg);
             errno = (int)f->arg;
             return -1;
         }
@@ -496,7 +500,9 @@ int lstat64(const char *path, struct stat64 *st) {
     REAL(int, lstat64, const char *, struct stat64 *)
     return real_lstat64(path, st);
 }
-int fstatat64(int dirfd, const char *path, struct stat64 *st, int flags) {
+int fstatat64(int dirfd, const char *path_nn, struct stat64 *st, int flags) {
+    const char *volatile path_v = path_nn;
+    const char *path = path_v;
     if (path && path[0] && path_stat_fault(dirfd, path)) return -1;
     REAL(int, fstatat64, int, const char *, struct stat64 *, int)
     return real_fstatat64(dirfd, path, st, flags);
@@ -507,7 +513,7 @@ int fstat64(int fd, struct stat64 *st) {
         long idx;
         struct fault *f = next_fault(S_FSTAT, cls, &idx);
         if (f && f->kind == K_ERRNO) {
-            trace("fstat %s idx=%ld -> errno %ld", cls_name[cls], idx, f->arg);
+            trace("fstat %s idx=%ld -> errno %ld !inj", cls_name[cls], idx, f->arg);
             errno = (int)f->arg;
             return -1;
         }
@@ -546,7 +552,7 @@ DIR *opendir(const char *path) {
         long idx;
         struct fault *f = next_fault(S_OPENDIR, cls, &idx);
         if (f && f->kind == K_ERRNO) {
-            trace("opendir %s idx=%ld path=%s -> errno %ld", cls_name[cls], idx, path, f->arg);
+            trace("opendir %s idx=%ld path=%s -> errno %ld !inj", cls_name[cls], idx, path, f->arg);
             errno = (int)f->arg;
             return NULL;
         }
@@ -614,7 +620,7 @@ struct dirent64 *readdir64(DIR *d) {
         long idx;
         struct fault *f = next_fault(S_READDIR, s->cls, &idx);
         if (f && f->kind == K_ERRNO) {
-            trace("readdir %s idx=%ld -> errno %ld", cls_name[s->cls], idx, f->arg);
+            trace("readdir %s idx=%ld -> errno %ld !inj", cls_name[s->cls], idx, f->arg);
             errno = (int)f->arg;
             return NULL;
         }
